@@ -27,7 +27,7 @@ PARALLEL = 14
 
 def floors(tier):
     k = 1 if tier == "quick" else 3
-    return {"subsets": 25 * k, "types_required_usable": 300 * k, "types_absent_confirmed": 150 * k, "kept_rpc_calls": 100 * k, "internal_cases": 8 * k,
+    return {"subsets": 25 * k, "types_required_usable": 300 * k, "types_absent_confirmed": 150 * k, "kept_rpc_calls": 100 * k, "internal_rpc_calls": 40 * k, "internal_cases": 8 * k,
             "rejections_checked": 3, "emptied_service_cases": 5 * k,
             "extended_operation_cases": 15 * k, "ext_op_flows": 10 * k}
 
@@ -301,6 +301,16 @@ def run_case(case):
                                      "ImportBooks": "shelves/s1", "PurgeBooks": "shelves/s1", "DeleteVault": "vaults/v1", "SealVault": "vaults/v1"}.get(m.name, "x"))
         calls.append({"service": s.name, "rpc": m.name, "method": rdm.py_method(m.name), "req_type": m.input_type.lstrip("."),
                       "request": rdm.b64(x.SerializeToString()), "path": f"/{p.package}.{s.name}/{m.name}"})
+    if case["internal"]:
+        # "nothing is omitted": the unlisted RPCs live on as _<method> and must still reach their RPC, on both client kinds
+        keptfq = {k[0] for k in kept}
+        for fq, p, s, m in rpcs:
+            if fq in keptfq or m.client_streaming:
+                continue
+            x = model.new(m.input_type)
+            rdm.fill(rng, x, max_depth=2)
+            calls.append({"service": s.name, "rpc": m.name, "method": "_" + rdm.py_method(m.name), "req_type": m.input_type.lstrip("."),
+                          "request": rdm.b64(x.SerializeToString()), "path": f"/{p.package}.{s.name}/{m.name}", "internal": True})
     script = {"root_pkg": apigen.lib_root(api.info, api.options), "types": types, "calls": calls,
               "services": {sn: [rdm.py_method(m.name) for _, m in ms] for sn, ms in services.items()}}
     ev, rc, err = pipeline.run_runner("checks.c16", script, lib, timeout=200)
@@ -379,9 +389,14 @@ def run_case(case):
                 bad("method-set", {"service": sn, "expected": sorted(keptm), "seen": sorted(have)})
     # wire
     for c, r in zip(calls, ev["calls"]):
-        bump("kept_rpc_calls")
+        bump("internal_rpc_calls" if c.get("internal") else "kept_rpc_calls")
+        # the asyncio client reaches the same RPC under the same method name
+        if r.get("aio_error"):
+            bad("internal-rpc-raised" if c.get("internal") else "kept-rpc-raised", {"rpc": c["rpc"], "client": "asyncio", "why": r["aio_error"]}, client="asyncio")
+        elif (r.get("aio_event") or {}).get("method") != c["path"]:
+            bad("kept-rpc-path", {"rpc": c["rpc"], "client": "asyncio", "seen": (r.get("aio_event") or {}).get("method")}, client="asyncio")
         if r.get("error"):
-            bad("kept-rpc-raised", {"rpc": c["rpc"], "why": r["error"]})
+            bad("internal-rpc-raised" if c.get("internal") else "kept-rpc-raised", {"rpc": c["rpc"], "why": r["error"]})
             continue
         e = r["event"]
         if e["method"] != c["path"]:
@@ -457,6 +472,34 @@ def in_runner(script):
         except BaseException as e:  # noqa
             o["error"] = rt.exc_info(e)
         out["calls"].append(o)
+
+    async def amain():
+        import grpc
+        ac = {}
+        for c, o in zip(script["calls"], out["calls"]):
+            try:
+                sn = c["service"]
+                if sn not in ac:
+                    cname = sn if hasattr(root, sn + "AsyncClient") else "Base" + sn
+                    C = getattr(root, cname + "AsyncClient")
+                    ac[sn] = C(transport=C.get_transport_class("grpc_asyncio")(channel=grpc.aio.insecure_channel(srv.target)))
+                mark = srv.mark()
+                ret = getattr(ac[sn], c["method"])(request=lib.mk(c["req_type"], rt.unb64(c["request"])))
+                if hasattr(ret, "__await__"):
+                    ret = await ret
+                elif hasattr(ret, "__aiter__"):
+                    async for _ in ret:
+                        pass
+                if hasattr(ret, "__aiter__") and not hasattr(ret, "pages"):
+                    async for _ in ret:
+                        pass
+                evs = srv.since(mark)
+                o["aio_event"] = evs[0] if evs else None
+            except BaseException as e:  # noqa
+                o["aio_error"] = rt.exc_info(e)
+
+    import asyncio
+    asyncio.run(amain())
     srv.stop()
     return out
 
